@@ -117,10 +117,32 @@ class C11(Prop):
                                       for _ in range(n)))
         return tuple(out)
 
+    def _directed(self):
+        hdr = ('k', 'a', 'v')
+        t = (hdr, ('b', 'x', 1), ('a', 'y', 2), ('b', None, 3), (None, 'x', 1), ('a', 'x', 3), ('c', 'y', 2), ('b', 'y', 1))
+        # the cache clause in both directions: chunked and in-memory sorts, three passes each
+        for key in ('k', None, ('k', 'v')):
+            for rev in (False, True):
+                for bs in (1, 2, 3, None):
+                    for cache in (True, False):
+                        yield Case('sv_history', (key, rev, bs, cache, t, ((1,), (1,), (1,))))
+        # set operations on overlapping tables, every strategy incl. presorted
+        a = (hdr, ('a', 'x', 1), ('b', 'y', 2), ('a', 'x', 1), ('c', None, 3), ('b', 'y', 2))
+        b = (hdr, ('b', 'y', 2), ('d', 'x', 1), ('a', 'x', 1), ('c', None, 3))
+        for name in ('complement', 'intersection', 'diff_added', 'diff_subtracted', 'recordcomplement'):
+            for tabs in ((a, b), (b, a)):
+                for st in ((1, True, False, False, None), (2, False, True, False, None), (None, True, False, False, 2),
+                           (None, True, False, True, None), (3, True, False, False, None)):
+                    if st[3] and name in NO_PRESORTED:
+                        continue
+                    yield Case('const_true', ('strategy', name, tabs, None, st))
+
     def cases(self, rng, tier):
         ops = _ops()
         names = sorted(ops)
         n = 12 if tier == 'quick' else 120
+        for c in self._directed():
+            yield c
         for _ in range(n):
             for name in names:
                 ntab = ops[name][0]
@@ -160,7 +182,7 @@ class C11(Prop):
                 yield Case('const_true', ('cache_clause', name, ts, ts2, key, rng.random() < 0.5, rng.choice([None, 2])))
 
     # ---- implementation side -----------------------------------------------------------------------------------
-    def _run(self, name, ts, key, strategy, sources=None):
+    def _run(self, name, ts, key, strategy, sources=None, flip=None):
         import petl as etl
         import petl.config as config
         ops = _ops()
@@ -170,7 +192,8 @@ class C11(Prop):
             # presorted=True is only meaningful on inputs sorted by the key the operator sorts by
             skey = key
             # (rows of the even sources are handed over as lists, those of the odd ones as tuples)
-            flip = len(srcs[0]) % 2
+            if flip is None:
+                flip = len(srcs[0]) % 2
             srcs = [[list(r) if (i + flip) % 2 == 0 else tuple(r) for r in etl.sort(s, skey)] for i, s in enumerate(srcs)]
         old = config.sort_buffersize
         td = tempfile.TemporaryDirectory(dir='/var/tmp') if use_tempdir else None
@@ -197,15 +220,19 @@ class C11(Prop):
                 _, name, ts, key, st = case.arg
                 base, _ = self._run(name, ts, key, (None, True, False, False, None))
                 b = obs_rows(base)
-                v, td = self._run(name, ts, key, st)
-                try:
-                    o1 = obs_rows(v)
-                    o2 = obs_rows(v)
-                finally:
-                    del v
-                    if td is not None:
-                        td.cleanup()
-                return codec.t_bool(o1 == b and o2 == b)
+                ok = True
+                # presorted inputs are handed over both ways round (lists first / tuples first)
+                for flip in ((0, 1) if st[3] else (None,)):
+                    v, td = self._run(name, ts, key, st, flip=flip)
+                    try:
+                        o1 = obs_rows(v)
+                        o2 = obs_rows(v)
+                    finally:
+                        del v
+                        if td is not None:
+                            td.cleanup()
+                    ok = ok and o1 == b and o2 == b
+                return codec.t_bool(ok)
             if kind == 'cache_clause':
                 _, name, ts, ts2, key, cache, bs = case.arg
                 srcs = [CountingTable(t) for t in ts]
@@ -235,6 +262,8 @@ class C11(Prop):
         with tempfile.TemporaryDirectory(dir='/var/tmp') as td:
             v = etl.sort(src, key, reverse=rev, buffersize=bs, cache=cache, tempdir=td)
             res = []
+            ok = True
+            frozen = None     # what a cached view keeps serving: the source as it was at the first full pass
             for h in hops:
                 if h[0] == 0:
                     src.rows = [list(r) for r in h[1]]
@@ -242,7 +271,16 @@ class C11(Prop):
                     before = src.pulls
                     outs = _outs(v)
                     res.append(('tu', (outs, codec.t_int(src.pulls - before))))
+                    # the property itself: a pass equals the default-strategy sort of the table it stands for
+                    if cache and frozen is None:
+                        frozen = [list(r) for r in src.rows]
+                    want = _outs(etl.sort(frozen if cache else [list(r) for r in src.rows], key, reverse=rev))
+                    ok = ok and outs == want
             del v
+        self._hist_ok = getattr(self, '_hist_ok', {})
+        if len(self._hist_ok) > 50000:
+            self._hist_ok.clear()
+        self._hist_ok[case.key()] = ok
         return ('li', tuple(res))
 
     def valid(self, case):
@@ -267,6 +305,8 @@ class C11(Prop):
     def spec(self, case, impl_obs, model_obs):
         if case.op == 'const_true':
             return impl_obs == codec.t_bool(True)
+        if case.op == 'sv_history':
+            return getattr(self, '_hist_ok', {}).get(case.key())
         return None
 
     def nontrivial(self, case):
